@@ -132,7 +132,9 @@ fn families(thorough: bool) -> Vec<Family> {
     let sizes: Vec<usize> = if thorough {
         (1..=1326).collect()
     } else {
-        vec![1, 2, 3, 127, 128, 129, 254, 255, 256, 257, 258, 511, 512, 513, 767, 768, 1023, 1024, 1025, 1325, 1326]
+        let mut v: Vec<usize> = (1..=66).collect();
+        v.extend([95, 96, 97, 127, 128, 129, 191, 192, 193, 254, 255, 256, 257, 258, 319, 320, 321, 511, 512, 513, 767, 768, 1023, 1024, 1025, 1279, 1280, 1281, 1325, 1326]);
+        v
     };
     for &n in &sizes {
         v.push(cfg(f, vec![first_n(n)]));
@@ -140,7 +142,7 @@ fn families(thorough: bool) -> Vec<Family> {
             v.push(cfg(f, vec![last_n(n)]));
         }
     }
-    for n in [255usize, 256, 257] {
+    for n in [31usize, 32, 33, 63, 64, 65, 128, 255, 256, 257] {
         let a = alphabet(&f);
         v.push(cfg(f, vec![first_n(n), subset_range(&a, 0b11, 1, &DYADIC)]));
         v.push(cfg(f, vec![subset_range(&a, 0b11, 0, &DYADIC), first_n(n)]));
@@ -148,7 +150,7 @@ fn families(thorough: bool) -> Vec<Family> {
     if thorough {
         v.push(cfg(f, vec![first_n(300), last_n(300)]));
     }
-    fams.push(Family { name: "range-sizes", rule: if thorough { "one player with the first N and the last N combos (card order) for every N in 1..=1326; (N,2) and (2,N) for N in 255..=257; (300,300)" } else { "one player with the first N combos for N around every multiple of 256 and at 1325/1326; (N,2) and (2,N) for N in 255..=257" }, configs: v, exact_prob: true, exhaustive: thorough });
+    fams.push(Family { name: "range-sizes", rule: if thorough { "one player with the first N and the last N combos (card order) for every N in 1..=1326; (N,2) and (2,N) for N in 31..=33, 63..=65, 128, 255..=257; (300,300)" } else { "one player with the first N combos for every N in 1..=66, around every multiple of 64 up to 320, around every multiple of 256 and at 1279..1281/1325/1326; (N,2) and (2,N) for N in 31..=33, 63..=65, 128, 255..=257" }, configs: v, exact_prob: true, exhaustive: thorough });
     // many players
     let mut v = vec![];
     for f in if thorough { &FLOPS8[..] } else { &FLOPS8[3..5] } {
